@@ -1,0 +1,47 @@
+//go:build verif
+
+// Machine-checked contracts for package asset (read by /verif/govc; comment-only).
+
+package asset
+
+//@ func SnapshotsAsDates
+//@ requires consumed(snapshots) == 0
+//@ ensures[C06,C02] len(result) == len(snapshots)
+//@ ensures[C06,C14] forall k :: 0 <= k && k < len(result) ==> result[k] == snapshots[k].Date
+//@ ensures[C03] consumed(snapshots) == len(snapshots) && closed(result)
+//@ ensures[C04] forall k :: 0 <= k && k < len(result) ==> hor(result, k) <= hor(snapshots, k)
+
+//@ func SnapshotsAsOpenings
+//@ requires consumed(snapshots) == 0
+//@ ensures[C06,C02] len(result) == len(snapshots)
+//@ ensures[C06,C14] forall k :: 0 <= k && k < len(result) ==> result[k] == snapshots[k].Open
+//@ ensures[C03] consumed(snapshots) == len(snapshots) && closed(result)
+//@ ensures[C04] forall k :: 0 <= k && k < len(result) ==> hor(result, k) <= hor(snapshots, k)
+
+//@ func SnapshotsAsHighs
+//@ requires consumed(snapshots) == 0
+//@ ensures[C06,C02] len(result) == len(snapshots)
+//@ ensures[C06,C14] forall k :: 0 <= k && k < len(result) ==> result[k] == snapshots[k].High
+//@ ensures[C03] consumed(snapshots) == len(snapshots) && closed(result)
+//@ ensures[C04] forall k :: 0 <= k && k < len(result) ==> hor(result, k) <= hor(snapshots, k)
+
+//@ func SnapshotsAsLows
+//@ requires consumed(snapshots) == 0
+//@ ensures[C06,C02] len(result) == len(snapshots)
+//@ ensures[C06,C14] forall k :: 0 <= k && k < len(result) ==> result[k] == snapshots[k].Low
+//@ ensures[C03] consumed(snapshots) == len(snapshots) && closed(result)
+//@ ensures[C04] forall k :: 0 <= k && k < len(result) ==> hor(result, k) <= hor(snapshots, k)
+
+//@ func SnapshotsAsClosings
+//@ requires consumed(snapshots) == 0
+//@ ensures[C06,C02] len(result) == len(snapshots)
+//@ ensures[C06,C14] forall k :: 0 <= k && k < len(result) ==> result[k] == snapshots[k].Close
+//@ ensures[C03] consumed(snapshots) == len(snapshots) && closed(result)
+//@ ensures[C04] forall k :: 0 <= k && k < len(result) ==> hor(result, k) <= hor(snapshots, k)
+
+//@ func SnapshotsAsVolumes
+//@ requires consumed(snapshots) == 0
+//@ ensures[C06,C02] len(result) == len(snapshots)
+//@ ensures[C06,C14] forall k :: 0 <= k && k < len(result) ==> result[k] == snapshots[k].Volume
+//@ ensures[C03] consumed(snapshots) == len(snapshots) && closed(result)
+//@ ensures[C04] forall k :: 0 <= k && k < len(result) ==> hor(result, k) <= hor(snapshots, k)
